@@ -4,6 +4,7 @@
 //
 //	c04obs trace [moddir] < hex sources   ->  OUTCOME \t steps=N;sp=K \t conflict=.. \t codeidhex:ip:h,...
 //	c04obs outcome [moddir] < hex sources ->  OUTCOME \t sp=K        (no tracing: for scaled loops)
+//	c04obs session [moddir] < JSON sessions -> id \t api:OUTCOME:entry:max:sp ; ...   (one VM per session, see session.go)
 //
 // sp is the operand stack pointer after a successful run (0 = exactly the result).  The globals are len,
 // print, try and error; modules are imported from moddir when given.
@@ -54,6 +55,10 @@ func main() {
 	}
 	if len(os.Args) > 2 {
 		moddir = os.Args[2]
+	}
+	if mode == "session" {
+		runSessions(w, moddir)
+		return
 	}
 	sc := bufio.NewScanner(os.Stdin)
 	sc.Buffer(make([]byte, 1<<20), 1<<24)
